@@ -1,5 +1,5 @@
 # plan and claim for C16 (PKCS#7 / CFCA messages); J and both are injected by driver/plan.py
-_ENV = {"GOGC": "400"}          # the sweeps allocate heavily; fewer collections, same verdicts
+_ENV = {"GOGC": "800"}          # the sweeps allocate heavily; fewer collections, same verdicts
 _CFG = ["avx2", "noaes"]        # asm variant; "purego" is added as its own variant below
 
 
